@@ -7,7 +7,10 @@
 (*   C09 mandated order, C18 one header per logical file.                  *)
 (* Clauses that need the user's specification are in DlisCanon.            *)
 (***************************************************************************)
-EXTENDS RP66EFLR, RP66Frame
+EXTENDS RP66EFLR, RP66Frame, IOUtils, TLC
+
+Dbg(tag, val) == IF "VERIF_DEBUG" \in DOMAIN IOEnv THEN PrintT(<< "DBG", tag, val >>) ELSE TRUE
+Flag(c, val) == IF Dbg(c, val) THEN {c} ELSE {}
 
 Str(s) == s     \* byte strings are written as tuples of character codes
 
@@ -149,7 +152,8 @@ IdentityClauses(dec) ==
               refs == LfRefs(dec, rg)
               orgs == { o.origin : o \in { x \in objs : x.type = sORIGIN } }
           IN (IF Cardinality({ Ident(o) : o \in objs }) = Cardinality(objs) THEN {} ELSE {"C07.IdentityUnique"})
-        \cup (IF \A r \in refs : Cardinality(Candidates(objs, r.v, r.setType, r.label)) = 1 THEN {} ELSE {"C07.RefResolves"})
+        \cup (IF \A r \in refs : Cardinality(Candidates(objs, r.v, r.setType, r.label)) = 1 THEN {}
+              ELSE Flag("C07.RefResolves", { << r.setType, r.label, r.v, Cardinality(Candidates(objs, r.v, r.setType, r.label)) >> : r \in { x \in refs : Cardinality(Candidates(objs, x.v, x.setType, x.label)) # 1 } }))
         \cup (IF \A o \in objs : o.type = sFILEHEADER \/ o.origin \in orgs THEN {} ELSE {"C07.OriginResolves"})
         \cup UNION { LET r == dec[i]
                          tt == IF r.type = 0 THEN sFRAME ELSE sNOFORMAT
